@@ -647,7 +647,7 @@ async fn drive(c: &Case) -> CheckResult {
                     // the role is taken: the newcomer is closed, nothing else happens
                     let mut closed = false;
                     let mut extra = Seen::default();
-                    for _ in 0..200 {
+                    for _ in 0..3000 {
                         settle_io().await;
                         let s = tap.take();
                         extra.opens.extend(s.opens);
@@ -706,7 +706,7 @@ async fn drive(c: &Case) -> CheckResult {
                 break;
             }
             waited += 1;
-            if waited > 300 {
+            if waited > 3000 {
                 break;
             }
         }
